@@ -10,6 +10,8 @@ def main():
         return 2
     what = sys.argv[1]
     repo = os.environ.get('VERIF_REPO', '/repo')
+    from simkit import simlock
+    simlock.install()          # before the library is imported: locks it creates become baton-aware
     import hl7apy
     if not os.path.abspath(hl7apy.__file__).startswith(os.path.abspath(repo) + os.sep):
         print('HARNESS-ERROR hl7apy imported from %s, not from %s' % (hl7apy.__file__, repo))
